@@ -137,6 +137,25 @@ def eval_case(case: dict) -> dict:
             if got[:len(rendered)] != rendered:
                 viol(f'comment-poured-into-{how_pour}-loses-its-rendering', rendered=rendered[:6],
                      got=got[:6])
+        # the same text as the description block of a user-made support file (SupportFileCfg +
+        # generate_cpp_code): everything before '#pragma once' is comment, the block handed
+        # over is left as it was, and generating twice gives the same file
+        if lines and len(lines) % 3 == 0:
+            from dznpy import support_files as SF  # pylint: disable=import-outside-toplevel
+            header = text_gen.TextBlock(list(lines))
+            cfg = SF.SupportFileCfg(header=header, body=text_gen.TextBlock('struct QZ {};'))
+            one = SF.generate_cpp_code(cfg)
+            two = SF.generate_cpp_code(cfg)
+            cnt['support_file_descriptions_rendered'] = 1
+            if header.lines != lines:
+                viol('support-file-generation-changed-the-description-block',
+                     before=lines[:8], after=header.lines[:12])
+            if one != two:
+                viol('support-file-differs-when-generated-again', first=one[:200], second=two[:200])
+            top = one.split('#pragma once')[0].split('\n')
+            if any(ln.strip() and not ln.startswith('//') for ln in top):
+                viol('support-file-description-leaves-the-comment',
+                     lines=[ln for ln in top if ln.strip() and not ln.startswith('//')][:5])
         if case.get('extend') is not None:
             ehow = case.get('extend_how', 'append')
             more = lines + T.ref_lines(case['extend'])
@@ -280,6 +299,7 @@ def main(tier: str) -> int:
                 'changed_after_render_via_lines-setter', 'changed_after_render_via_trim',
                 'poured_chunk-no-appendix', 'poured_in-list', 'poured_cond_chunk',
                 'poured_namespace-contents', 'poured_struct-contents',
+                'support_file_descriptions_rendered',
                 'build_pairs', 'files_compared',
                 'lexer_residues_compared')
     for _item, res in run.pmap(_worker, [(run.seed, i, per) for i in range(total // per)]):
